@@ -8,6 +8,13 @@ Aspects (they are the first component of every failure kind and the `aspect` tag
   batched_forward / batched_ladj / batched_inverse     batched call == per-slice calls
   tp_call / tp_value     TransformedParameter() / .tensor for the current value (initial and after an update)
   model_call       ReparameterizedTimeTreeModel() for the current value (initial and after an update)
+Sub-check `extreme` (element-wise and cumulative transforms, |x| up to 40, positives 1e-17..1e17, float64 and
+float32) compares with the documented formulas evaluated by mpmath at 60 digits on the exact floating-point inputs:
+  x_forward        T(x) vs documented forward map
+  x_ladj           reported log-Jacobian vs documented derivative formula
+  x_inverse        inv(y) vs documented inverse at the exact y the transform produced
+  x_roundtrip      inv(T(x)) vs x
+  tp_setter        TransformedParameter.tensor = y stores inv(y); the call then reports the log-Jacobian there
 A method raising NotImplementedError is "not provided" (label), never a failure.
 """
 import math
@@ -32,7 +39,12 @@ RULE = (
     "(ties common). Every transform is obtained through the JSON route (TransformedParameter or "
     "ReparameterizedTimeTreeModel specification -> process_objects), x optionally split over two parameters "
     "(CatParameter). Non-trivial = (dimension >= 2 or tree with >= 3 taxa) and x not the zero vector; "
-    "distinct = (class, options, topology/dates, batch shape, rounded x and x2 - both points are checked)."
+    "distinct = (class, options, topology/dates, batch shape, rounded x and x2 - both points are checked). "
+    "Sub-check 'extreme': class in SoftPlus / CumSumSoftPlus / CumSumExp / CumSum / Log / TrilExpDiagonal / torch Exp / "
+    "Sigmoid, dtype float64 or float32, dimension 1..8, elements from a mixture of [-40,40], its outer halves and "
+    "[-5,5] (positives log-uniform 1e-17..1e17 and its outer thirds; float32 cumulative transforms [-10,10] so that "
+    "cumulative sums stay below log(float32 max)), rounded to the dtype; non-trivial there = some |x_i| > 20 "
+    "(> 8 in float32) or < 1e-8 and the documented forward value representable in the dtype."
 )
 ASSUMPTIONS = [
     "the oracle Jacobian is torch.autograd.functional.jacobian of the transform's own forward map, per slice, "
@@ -51,6 +63,16 @@ ASSUMPTIONS = [
     "torch.max ties in DifferenceNodeHeightTransform (k=0) may be generated: the Jacobian stays unit-triangular "
     "whichever sub-gradient autograd takes, so the log-determinant is still 0",
     "transforms with their own Parameter arguments are not updated through those arguments (C11's subject)",
+    "extreme regions: the reference is the documented formula in mpmath (60 digits) at the exact floating-point "
+    "argument; tolerance = floor max(1,|G|) + 16 eps (|G_i| + sum_j |dG_i/dz_j||z_j|), floor 1e-8 (float64, the "
+    "property's tolerance) / 1e-5 (float32): the second term is what a componentwise backward-stable evaluation "
+    "delivers, including the information lost by rounding y (round trip)",
+    "the floor means relative accuracy of tiny values is not asserted by itself (torch's softplus switches to the "
+    "identity above 20, abs. error 2e-9; it shows only when the inverse amplifies it beyond the floor)",
+    "points where the documented forward value overflows or is subnormal in the dtype are skipped and counted "
+    "(label skipped:documented_forward_out_of_range); not generated: constrained softplus values above "
+    "log(dtype max) (88.7 float32 / 709.8 float64), where expm1 in the inverses overflows",
+    "torch's Power / Affine / StickBreaking / Compose and the tree transforms are exercised in moderate ranges only",
 ]
 
 EPS = 2.220446049250313e-16
@@ -719,6 +741,234 @@ def body_rates(c):
     return res
 
 
+# --------------------------------------------------------------------------- extreme regions (mpmath reference)
+EXTREME_CLASSES = [
+    "SoftPlusTransform", "SoftPlusTransform", "CumSumSoftPlusTransform", "CumSumExpTransform", "CumSumTransform",
+    "LogTransform", "TrilExpDiagonalTransform", "ExpTransform", "SigmoidTransform",
+]
+CUMULATIVE = {"CumSumSoftPlusTransform", "CumSumExpTransform", "CumSumTransform"}
+DTYPES = {"float64": (torch.float64, 2.220446049250313e-16, 1e-8), "float32": (torch.float32, 1.1920928955078125e-07, 1e-5)}
+K_ULP = 16
+
+
+def _round_to(v, dtype):
+    return float(np.float32(v)) if dtype == "float32" else float(v)
+
+
+@st.composite
+def extreme_cases(draw):
+    cls = draw(st.sampled_from(EXTREME_CLASSES))
+    dtype = draw(st.sampled_from(["float64", "float64", "float32"]))
+    if cls == "TrilExpDiagonalTransform":
+        m = draw(st.integers(1, 3))
+        d = m * (m + 1) // 2
+    else:
+        d = draw(st.integers(1, 8))
+    # float32 cumulative sums are kept below log(float32 max) ~ 88.7 (8 x 10); float64: 8 x 40 < 709
+    hi = 10.0 if (dtype == "float32" and cls in CUMULATIVE) else 40.0
+    if cls == "LogTransform":
+        elem = st.one_of(logu(1e-17, 1e17), logu(1e-17, 1e-8), logu(1e8, 1e17))
+    else:
+        elem = st.one_of(fl(-hi, hi), fl(-hi, -hi / 2), fl(hi / 2, hi), fl(-5.0, 5.0))
+    x = [_round_to(draw(elem), dtype) for _ in range(d)]
+    return {"cls": cls, "dtype": dtype, "d": d, "x": x}
+
+
+def _mp_refs(cls):
+    """documented forward / inverse / log-Jacobian of a class as functions of lists of mpf -> list of mpf
+    (None where the argument is outside the map's domain); ladj has one entry per element for element-wise
+    transforms and a single entry (the event sum) for cumulative ones, None if the class reports none"""
+    import mpmath as mp
+
+    def cums(v):
+        out, t = [], mp.mpf(0)
+        for a in v:
+            t = t + a
+            out.append(t)
+        return out
+
+    def diff(v):
+        return [v[0]] + [v[i] - v[i - 1] for i in range(1, len(v))]
+
+    def sp(v):  # log(1 + e^v)
+        return mp.log1p(mp.exp(v))
+
+    def isp(y):  # log(e^y - 1)
+        return mp.log(mp.expm1(y))
+
+    def pos(v):
+        return all(a > 0 for a in v)
+
+    if cls == "SoftPlusTransform":
+        return (lambda x: [sp(a) for a in x], lambda y: [isp(a) for a in y] if pos(y) else None,
+                lambda x: [-sp(-a) for a in x])
+    if cls == "CumSumSoftPlusTransform":
+        return (lambda x: [sp(c) for c in cums(x)], lambda y: diff([isp(a) for a in y]) if pos(y) else None,
+                lambda x: [mp.fsum(-sp(-c) for c in cums(x))])
+    if cls == "CumSumExpTransform":
+        return (lambda x: [mp.exp(c) for c in cums(x)], lambda y: diff([mp.log(a) for a in y]) if pos(y) else None,
+                lambda x: [mp.fsum(cums(x))])
+    if cls == "CumSumTransform":
+        return (cums, diff, lambda x: [mp.mpf(0)])
+    if cls == "LogTransform":
+        return (lambda x: [mp.log(a) for a in x] if pos(x) else None, lambda y: [mp.exp(a) for a in y],
+                lambda x: [-mp.log(a) for a in x])
+    if cls == "ExpTransform":
+        return (lambda x: [mp.exp(a) for a in x], lambda y: [mp.log(a) for a in y] if pos(y) else None,
+                lambda x: list(x))
+    if cls == "SigmoidTransform":
+        return (lambda x: [1 / (1 + mp.exp(-a)) for a in x],
+                lambda y: [mp.log(a) - mp.log1p(-a) for a in y] if all(0 < a < 1 for a in y) else None,
+                lambda x: [-sp(-a) - sp(a) for a in x])
+    if cls == "TrilExpDiagonalTransform":
+        def diag_idx(n):
+            m = int((-1 + math.sqrt(1 + 8 * n)) / 2)
+            return {i * (i + 1) // 2 + i for i in range(m)}
+        return (lambda x: [mp.exp(a) if k in diag_idx(len(x)) else a for k, a in enumerate(x)],
+                lambda y: ([mp.log(a) if k in diag_idx(len(y)) else a for k, a in enumerate(y)]
+                           if all(y[k] > 0 for k in diag_idx(len(y))) else None),
+                None)
+    raise KeyError(cls)
+
+
+def _mp_tolerance(G, z, g0, u, floor):
+    """what a componentwise backward-stable evaluation of the documented map G can deliver at the exact
+    floating-point argument z:  floor max(1,|G_i|) + K u (|G_i| + sum_j |dG_i/dz_j| |z_j|); the derivative
+    terms come from relative perturbations of one argument at a time, evaluated at 60 digits"""
+    import mpmath as mp
+
+    h = mp.mpf(10) ** -30
+    sens = [abs(v) for v in g0]
+    for j, zj in enumerate(z):
+        if zj == 0:
+            continue
+        zz = list(z)
+        zz[j] = zj * (1 + h)
+        g1 = G(zz)
+        if g1 is None:
+            return None
+        for i in range(len(g0)):
+            sens[i] += abs((g1[i] - g0[i]) / h)
+    return [floor * max(1.0, abs(float(v))) + K_ULP * u * float(sv) for v, sv in zip(g0, sens)]
+
+
+def _in_range(vals, dtype):
+    fi = torch.finfo(dtype)
+    return all(mp_abs <= fi.max and (mp_abs == 0 or mp_abs >= fi.tiny) for mp_abs in (abs(float(v)) for v in vals))
+
+
+def _mpl(t):
+    import mpmath as mp
+
+    return [mp.mpf(v) for v in t.detach().to(torch.float64).reshape(-1).tolist()]
+
+
+def _cmp_mp(res, aspect, got, ref, tol, detail):
+    g = got.detach().to(torch.float64).reshape(-1).tolist()
+    if len(g) != len(ref):
+        _fail(res, aspect, "shape", dict(detail, got_len=len(g), expected_len=len(ref)))
+        return False
+    worst = None
+    for i, (a, b, t) in enumerate(zip(g, ref, tol)):
+        err = abs(a - float(b)) if math.isfinite(a) else float("inf")
+        if not err <= t and (worst is None or err / t > worst[0]):
+            worst = (err / t, i, a, float(b), t)
+    if worst is not None:
+        _fail(res, aspect, "mismatch", dict(detail, index=worst[1], got=worst[2], mpmath=worst[3], tol=worst[4]))
+        return False
+    return True
+
+
+def body_extreme(c):
+    import mpmath as mp
+
+    cls, dname = c["cls"], c["dtype"]
+    dtype, u, floor = DTYPES[dname]
+    labels = {cls, dname}
+    res = Res(nontrivial=False, key=c, tags={"cls": cls, "dtype": dname})
+    spec = {"id": "tp", "type": "TransformedParameter", "transform": FULL[cls],
+            "x": tt.P("x", c["x"], dtype="torch." + dname)}
+    tp, dic = tt.build(spec)
+    T = tp.transform
+    X = dic["x"].tensor
+    outmap = _outmap(cls)
+    big = max(abs(v) for v in c["x"])
+    res.nontrivial = bool(big > 20.0 or big < 1e-8 or (dname == "float32" and big > 8.0))
+    labels.add("beyond_moderate" if res.nontrivial else "moderate")
+    with mp.workdps(60):
+        fwd, inv, ladj = _mp_refs(cls)
+        xs = _mpl(X)
+        if [float(v) for v in xs] != [float(v) for v in c["x"]] or X.dtype != dtype:
+            _fail(res, "build", "value", {"x": c["x"], "built": X.tolist(), "dtype": str(X.dtype)})
+            return res
+        d = {"x": c["x"], "dtype": dname}
+        F = fwd(xs)
+        if F is None or not _in_range(F, dtype):
+            labels.add("skipped:documented_forward_out_of_range")
+            res.nontrivial = False
+            res.labels = tuple(sorted(labels))
+            return res
+        # forward at the exact x
+        Y, e = _try(lambda: T(X))
+        if e is not None or _notprov(Y):
+            _fail(res, "x_forward", "not_provided", d, e)
+            return res
+        Yv = outmap(Y)
+        tolF = _mp_tolerance(fwd, xs, F, u, floor)
+        _cmp_mp(res, "x_forward", Yv, F, tolF, d)
+        # log-Jacobian at the exact x
+        if ladj is not None:
+            L, e = _try(lambda: T.log_abs_det_jacobian(X, Y))
+            if e is not None:
+                _fail(res, "x_ladj", "", d, e)
+            elif not _notprov(L):
+                Lr = ladj(xs)
+                if _in_range(Lr, dtype) or all(v == 0 for v in Lr):
+                    tolL = _mp_tolerance(ladj, xs, Lr, u, floor)
+                    if len(Lr) == 1 and L.numel() != 1:
+                        L = _reduce(L, X.shape)
+                    if L is None:
+                        _fail(res, "ladj_shape", "shape", d)
+                    else:
+                        _cmp_mp(res, "x_ladj", L, Lr, tolL, d)
+                        labels.add("x_ladj:checked")
+        # inverse at the exact floating-point y the transform produced, and the round trip
+        if bool(torch.all(torch.isfinite(Yv))):
+            ys = _mpl(Yv)
+            Xi, e = _try(lambda: T.inv(Y))
+            if e is not None:
+                _fail(res, "x_inverse", "", d, e)
+            elif not _notprov(Xi):
+                G = inv(ys)
+                if G is not None and _in_range(G, dtype):
+                    tolG = _mp_tolerance(inv, ys, G, u, floor)
+                    if tolG is not None:
+                        _cmp_mp(res, "x_inverse", Xi, G, tolG, dict(d, y=[float(v) for v in ys]))
+                        labels.add("x_inverse:checked")
+                # round trip: what rounding y = F(x) to the dtype costs is K u |dG/dy||y| at the exact F
+                Gf = inv(F)
+                tolR = _mp_tolerance(inv, F, Gf, u, floor) if Gf is not None else None
+                if tolR is not None:
+                    _cmp_mp(res, "x_roundtrip", Xi, xs, tolR, dict(d, y=[float(v) for v in ys]))
+                    labels.add("x_roundtrip:checked")
+                # the TransformedParameter setter stores inv(y), and the call reports the log-Jacobian there
+                if bool(torch.all(torch.isfinite(Xi))):
+                    _, e = _try(lambda: setattr(tp, "tensor", Y))
+                    if e is not None:
+                        _fail(res, "tp_setter", "", d, e)
+                    elif not torch.equal(dic["x"].tensor, Xi):
+                        _fail(res, "tp_setter", "mismatch", dict(d, stored=dic["x"].tensor.tolist(), inverse=Xi.tolist()))
+                    else:
+                        want, e1 = _try(lambda: T.log_abs_det_jacobian(Xi, T(Xi)))
+                        got, e2 = _try(lambda: tp())
+                        if e1 is None and e2 is None and not _notprov(want) and not _notprov(got):
+                            if not _close(got, want, 1e-6 if dname == "float32" else 1e-12):
+                                _fail(res, "tp_call", "mismatch:after_assignment",
+                                      dict(d, called=got.tolist(), reported=want.tolist()))
+    res.labels = tuple(sorted(labels))
+    return res
+
+
 # --------------------------------------------------------------------------- calibration of the oracle
 def selftest():
     from torch.distributions import ExpTransform
@@ -734,6 +984,20 @@ def selftest():
     assert newick_from(["a", "b", "c"], [[0, 0], [0, 0]]) == "(c,(a,b));"
     assert _reduce(torch.zeros(3), (3,)).shape == () and _reduce(torch.zeros(()), (3,)).shape == ()
     assert _reduce(torch.zeros(2), (3,)) is None
+    import mpmath as mp
+
+    with mp.workdps(60):
+        # conditioning of log(expm1(y)) at a tiny y is ~1 relative-to-absolute; a 16-ulp budget at |G| ~ 25
+        f, g, l = _mp_refs("SoftPlusTransform")
+        y = [mp.mpf(1.388794386496402e-11)]
+        G = g(y)
+        assert abs(float(G[0]) + 25.0) < 1e-9, G
+        t = _mp_tolerance(g, y, G, 2.220446049250313e-16, 0.0)
+        assert 16 * 2.2e-16 * 25 < t[0] < 16 * 2.3e-16 * 27, t
+        assert abs(float(l([mp.mpf(0)])[0]) + math.log(2.0)) < 1e-15
+        f, g, l = _mp_refs("CumSumExpTransform")
+        assert [float(v) for v in g(f([mp.mpf(1), mp.mpf(-3)]))] == [1.0, -3.0]
+        assert float(l([mp.mpf(1), mp.mpf(-3)])[0]) == -1.0
     t = {"n": 3, "newick": "(c,(a,b));", "taxa": ["a", "b", "c"]}
     assert parse_newick(t["newick"]) == ["c", ["a", "b"]] and parent_map(t) == ({0: 3, 1: 3, 2: 4, 3: 4}, 4)
 
@@ -752,6 +1016,8 @@ def subchecks(tier):
         Sub("vector", body_vector, strategy=vector_cases, quick=3000, thorough=48000, pretags=_vec_pretags),
         Sub("heights", body_heights, strategy=lambda: height_cases(max_n), quick=1000, thorough=16000,
             pretags=_h_pretags),
+        Sub("extreme", body_extreme, strategy=extreme_cases, quick=3000, thorough=30000,
+            pretags=lambda c: {"cls": c["cls"], "dtype": c["dtype"]}),
         Sub("rates", body_rates, strategy=lambda: rate_cases(min(max_n, 12)), quick=500, thorough=8000,
             pretags=_vec_pretags),
     ]
